@@ -353,25 +353,26 @@ structure Shares where
   feesValidators : Nat
   deriving DecidableEq, Repr
 
-/-- `tips * (0.01 * pctT) + network_fees * (0.01 * pctF)` as in `to_proposer_amount` / `to_validator_set_amount` -/
+/-- `tips * (0.01 * pctT) + network_fees * (0.01 * pctF)` as in `to_proposer_amount` / `to_validator_set_amount`
+(every step is an `unwrap`: `Option.bind` chain, `none` = panic) -/
 def shareAmount (s : Summary) (pctT pctF : Nat) : Option Int :=
-  match dmulNat 10000000000000000 pctT, dmulNat 10000000000000000 pctF, s.networkFees with
-  | some ft, some ff, some nf =>
-    (match dmul s.tipCost ft, dmul nf ff with
-     | some a, some b => dadd a b
-     | _, _ => none)
-  | _, _, _ => none
+  (dmulNat 10000000000000000 pctT).bind fun ft =>
+  (dmulNat 10000000000000000 pctF).bind fun ff =>
+  s.networkFees.bind fun nf =>
+  (dmul s.tipCost ft).bind fun a =>
+  (dmul nf ff).bind fun b =>
+  dadd a b
 
 def Summary.toProposer (s : Summary) (sh : Shares) : Option Int := shareAmount s sh.tipsProposer sh.feesProposer
 def Summary.toValidators (s : Summary) (sh : Shares) : Option Int := shareAmount s sh.tipsValidators sh.feesValidators
 /-- `to_burn_amount` -/
 def Summary.toBurn (s : Summary) (sh : Shares) : Option Int :=
-  match s.networkFees, s.toProposer sh, s.toValidators sh with
-  | some nf, some p, some v =>
-    (match dadd s.tipCost nf with
-     | some t => (match dsub t p with | some u => dsub u v | none => none)
-     | none => none)
-  | _, _, _ => none
+  s.networkFees.bind fun nf =>
+  (s.toProposer sh).bind fun p =>
+  (s.toValidators sh).bind fun v =>
+  (dadd s.tipCost nf).bind fun t =>
+  (dsub t p).bind fun u =>
+  dsub u v
 
 /-! ### `determine_result_type` -/
 
